@@ -253,6 +253,7 @@ def check(seed, p, ops=None):
     answers, banswers, cur, curb = [], [], {}, {}
     in_b = False
     illegal = []
+    divzero_at = []
     for ln in out:
         if ln.startswith('illegal '):
             illegal.append((len(answers), ln[8:]))
@@ -268,6 +269,8 @@ def check(seed, p, ops=None):
                 answers.append(cur)
                 cur = {}
             in_b = not in_b
+        elif ln == 'v divzero':
+            divzero_at.append(len(answers))
         elif ln.startswith('K '):
             _, i, a, v = ln.split(' ')
             cur[(int(i), int(a))] = C.unq(v)
@@ -292,7 +295,18 @@ def check(seed, p, ops=None):
         k, ln = illegal[0]
         return done, {'where': 'L2:step-legality', 'step': k, 'op': done[min(k, len(done) - 1)], 'model': 'StepOK ' + ln,
                       'impl': 'message delivered in a state where StepOK is false', 'count': len(illegal)}, stats
+    # a read that ends in a division by zero aborts half-way: which dependencies were calculated (and cached) before
+    # the exception depends on the iteration order of the affector-spec sets, i.e. on memory addresses.  From the
+    # first such read on, only the values of the entries both sides hold are compared (coherence), not the key sets.
+    loose_from = min(divzero_at) if divzero_at else len(impl)
+    stats['histories_with_divzero_read'] = int(bool(divzero_at))
     for k, (m, i) in enumerate(zip(answers, impl)):
+        if k >= loose_from:
+            for key in set(m) & set(i):
+                if not C.close(float(m[key]), i[key]):
+                    return done, {'where': 'L2:cache-values', 'step': k, 'op': done[k], 'key': key,
+                                  'model': str(m[key]), 'impl': i[key]}, stats
+            continue
         if set(m) != set(i):
             return done, {'where': 'L2:cache-keys', 'step': k, 'op': done[k],
                           'model_only': sorted(set(m) - set(i))[:5], 'impl_only': sorted(set(i) - set(m))[:5]}, stats
